@@ -20,7 +20,7 @@
 From Coq Require Import String List NArith ZArith Bool.
 From MevVerif Require Import lib.Bytes model.NoPanic model.Eip712 model.Signer proofs.NoPanic_proofs.
 From MevVerif Require lib.Varint model.PreconfBidder model.BidderApi model.PreconfProvider model.ProviderSvc model.Rules
-  model.Handshake model.Framing model.Topology proofs.PreconfProvider_traces proofs.Handshake_proofs proofs.Framing_proofs proofs.Topology_proofs.
+  model.Handshake model.Framing model.Topology model.PeerRegistry model.Blocklist proofs.PreconfProvider_traces proofs.Handshake_proofs proofs.Framing_proofs proofs.Topology_proofs.
 Import ListNotations.
 Open Scope N_scope.
 
@@ -280,3 +280,61 @@ Theorem C06_handshake_failure_v0_refuted :
   panics_gen without_metrics (EE2EOutbound false E2Garbage) = true.
 Proof. exact e2e_v0_refuted. Qed.
 Print Assumptions C06_handshake_failure_v0_refuted.
+
+(* ---- round A3 ------------------------------------------------------------------------------------------------------ *)
+
+(* The frame reader as a whole, over bytes (model/Framing.v: the msgio reader fed chunk by chunk, then stream.ReadMsg
+   on every delivered frame).  For EVERY list of chunks -- any bytes, cut anywhere: prefixes announcing zero, more than
+   the limit or more than ever arrives, undecodable bodies, envelopes with neither member, OK-coded errors -- the
+   reader's state stays well-formed (nothing complete is left undelivered), every delivered frame is within the limit,
+   every delivered frame maps to a ReadMsg result that is not a crash, and frames and stuck-condition do not depend on
+   the chunking.  (Framing.v has no crash constructor, so "not Panic" is carried by read_msg_outcome, which has no branch
+   that could produce one; the content of the theorem is the invariant and the bound.) *)
+Theorem C06_no_panic_frame_reader : forall cs : list bytes,
+  let s := Framing.feed_chunks cs in
+  Framing_proofs.Stable s /\
+  Forall (fun p => Varint.len_of p <= Framing.max_msg) (Framing.out s) /\
+  Forall (fun p => read_msg_outcome p <> Panic) (Framing.out s) /\
+  Framing.out s = Framing.out (Framing.feed_all (concat cs)) /\
+  Framing.dead s = Framing.dead (Framing.feed_all (concat cs)).
+Proof. exact FrameReader.frame_reader_total. Qed.
+Print Assumptions C06_no_panic_frame_reader.
+
+(* handleConnectReq / Connect composed with the registry and the block list (NoPanic.connect_wrapper: the
+   outcome-valued handshake of round A2, then PeerRegistry.add_peer on an enrolment resp. Blocklist.block_peer with the
+   regenerated durations on a refusal): no list of connection attempts -- any scripts, registry answers, write
+   failures, closed connections, clocks, directions -- ends in Panic ... *)
+Theorem C06_no_panic_connect_wrappers : forall K cr mkpeer l,
+  recover_total cr -> recover_len cr ->
+  forall nd, exists nd', connect_run K cr mkpeer nd l = Ok nd'.
+Proof. exact connect_wrappers_no_panic. Qed.
+Print Assumptions C06_no_panic_connect_wrappers.
+
+(* ... and after a refusal the node is in a state from which the next connection is served: the registry is what it
+   was and only the refused remote's own block entry may have changed. *)
+Theorem C06_refusal_keeps_node_serving : forall K cr mkpeer nd a nd' r cl,
+  connect_wrapper K cr mkpeer nd a = Ok nd' ->
+  (if at_inbound a
+   then handle_outcome K cr (at_cfg a) (at_pres a) (at_registered a) (at_wfail a) (at_script a)
+   else handshake_outcome K cr (at_cfg a) (at_pres a) (at_registered a) (at_wfail a) (at_script a)) = Ok r ->
+  Handshake.res r = Handshake.Refuse cl ->
+  n_reg nd' = n_reg nd /\
+  forall q, q <> at_pid a -> Blocklist.lookup q (n_blocks nd') = Blocklist.lookup q (n_blocks nd).
+Proof. exact refusal_keeps_node_serving. Qed.
+Print Assumptions C06_refusal_keeps_node_serving.
+
+(* discovery's worker semaphore as a counter (NoPanic.pool_run; cap = the number of check workers): for every
+   interleaving of handler sends, handler cancellations, dispatcher acquisitions and worker returns, Release is never
+   called with nothing held (no "released more than held" panic), the slots held are exactly the live workers and never
+   more than cap.  _partial: the pool is a model of its own written from discovery.go (PeerList decoding is the Gossip
+   step of model/Topology.v, C06_peers_list_only_dials); the two are not composed into one machine. *)
+Theorem C06_semaphore_balanced_partial : forall cap evs,
+  exists s, pool_run cap false pool_init evs = Ok s /\ held s = workers s /\ held s <= cap.
+Proof. exact semaphore_balanced. Qed.
+Print Assumptions C06_semaphore_balanced_partial.
+
+(* the seeded variants (a slot given back on the handler's ctx.Done branch) do crash, once the real holders finish *)
+Theorem C06_semaphore_release_on_cancel_refuted :
+  pool_run 10 true pool_init [PSend; PAcquire; PCancel; PDone] = Panic.
+Proof. exact semaphore_release_on_cancel_refuted. Qed.
+Print Assumptions C06_semaphore_release_on_cancel_refuted.
